@@ -21,6 +21,7 @@ template <class PT> void run_set(vf::Ctx& c, const char* tname, const regref::Se
   if (fewRotations) { auto all = regref::rotations(DIM, 1); rots = {all[3], all[all.size() - 5]}; }   // the every-size sweep: two rotations
   std::vector<V3> trans = {V3(0, 0, 0), V3(0.3, -1.2, DIM == 3 ? 2 : 0), V3(1e3, -1e3, DIM == 3 ? 10 : 0)};
   size_t n = set.pts.size();
+  PreconditionedPointSet<PT> keptS, keptT;   // long-lived preconditioned point sets
   FindRigidTransformationBySVD<PT> reusedEstimator, assignedEstimator;   // one estimator object serves every problem of this set as well; another one is overwritten by it each time
   for (size_t ir = 0; ir < rots.size(); ++ir) for (size_t it = 0; it < trans.size(); ++it) for (int sig = 0; sig < 3; ++sig) {
     LD sigma = sig == 0 ? 0 : sig == 1 ? 1e-3L : 0.1L;
@@ -86,6 +87,13 @@ template <class PT> void run_set(vf::Ctx& c, const char* tname, const regref::Se
         };
         got = run(est);
         {   // the long-lived estimator (every overload in turn), a copy of it, and another long-lived estimator overwritten by assignment
+          if (ov >= 2) {   // long-lived preconditioned point sets: first filled with the same scale AND a translation, then re-filled scale-only
+            using TV = typename PreconditionedPointSet<PT>::TranslationVector; TV tv = TV::Zero(); for (int d = 0; d < DIM; ++d) tv[d] = (S)(0.75 - 0.5 * d);
+            keptS.compute(src, scale, tv); keptT.compute(tgtUse, scale, tv);
+            keptS.compute(ov == 2 ? srcIdx : src, scale); keptT.compute(ov == 2 ? tgtIdx : tgtUse, scale);
+            FindRigidTransformationBySVD<PT> e2; H viaKept = ov == 2 ? e2.find(keptS, keptT, cor) : e2.find(keptS, keptT);
+            if ((viaKept - got).norm() != 0) c.violation("FindRigidTransformationBySVD.find.dependsOnHistory", vf::JO().str("type", tname).str("set", set.name).u("rotation", ir).u("translation", it).i("correspondence_mode", cm).i("overload", ov).str("history", "PreconditionedPointSet filled with scale and translation, then re-filled scale-only with the same scale").done(), vf::JO().num("kept_sets_vs_fresh", (double)(viaKept - got).norm()).done());
+          }
           H again = run(reusedEstimator); FindRigidTransformationBySVD<PT> cp(reusedEstimator); H viaCopy = run(cp); assignedEstimator = reusedEstimator; H viaAssigned = run(assignedEstimator);
           if ((again - got).norm() != 0 || (viaCopy - got).norm() != 0 || (viaAssigned - got).norm() != 0)
             c.violation("FindRigidTransformationBySVD.find.dependsOnHistory", vf::JO().str("type", tname).str("set", set.name).u("rotation", ir).u("translation", it).i("correspondence_mode", cm).i("overload", ov).done(), vf::JO().num("reused_vs_fresh", (double)(again - got).norm()).num("copy_vs_fresh", (double)(viaCopy - got).norm()).num("assigned_vs_fresh", (double)(viaAssigned - got).norm()).done());
